@@ -53,7 +53,7 @@ CLAIMS = {
           "metric window cannot be served by the global window is rejected and leaves the configuration in effect unchanged; node_panics_on_bad_global (why it must be); "
           "config_same_for_all_threads / store_read_thread_independent for the process-wide store; thread_local_store_witness: the per-thread store the code had is a counterexample. Tie: one "
           "child process per configuration from the 6x6x5x7 grid (every accepted combination, rejected ones sampled in quick / all in thorough), by entity and by YAML, init on the main or "
-          "another thread; accessors on both threads; nodes created on both threads; window behaviour under the virtual clock compared with the C02 ring model of the configured geometry."),
+          "another thread; accessors on both threads; nodes created on both threads; window behaviour under the virtual clock, including qps_previous of the default reader, compared with the C02 ring model of the configured geometry."),
     design_ref="DESIGN.md §6 C17",
     technique="Lean 4 proof (decision logic of the check, totality of node construction, store model) + differential correspondence per child process incl. a second thread",
     note=NOTE_COMMON + " serde_yaml is trusted for the YAML text. Found and fixed with this check: D9 (configuration was thread_local; fix: commit 2d249fe)."),
@@ -149,13 +149,13 @@ CLAIMS = {
           "number of identical attempts exactly the first succeeds), pass_only_closed_or_probe (a request passes only if it read Closed, or read Open at/after the retry deadline and won the "
           "Open->Half-Open transition). Request-level model RSt.step (a request's try_pass together with the rollback hook of its own entry; completions): request_transitions (a request that is "
           "not the probe never moves the breaker; a roll-back out of Half-Open belongs to the thread that opened this very phase in the same request), phase_admits_no_second_probe (from Half-Open, "
-          "every history of requests by any threads is refused and changes nothing), run_log_is_path. Tie: 2-3 real threads around each transition on the real breakers under the deterministic scheduler; the Spec replays the schedule log: the listener "
+          "every history of requests by any threads is refused and changes nothing), run_log_is_path. Split-step model SSt.step (the retry-deadline test and the locked compare-and-set of from_open_to_half_open as two separately scheduled steps, with the re-test under the state lock that the D16 repair added): probe_not_before_deadline (for every interleaving of any threads, a request becomes the probe only at or after the deadline in force at the moment it takes the state lock), stale_check_witness (without the re-test the schedule test/probe-fails-and-reopens/lock admits a probe before the new deadline - the defect D16). Tie: 2-3 real threads around each transition on the real breakers under the deterministic scheduler; the Spec replays the schedule log: the listener "
           "log must be a path from the state left by the setup, every admitted request must have entered the state mutex while it said Closed or have emitted Open->Half-Open itself "
           "(notifications are logged inside the mutex, so the holder is the emitter), a request that is not the probe must not move the breaker out of Half-Open, the final state must be the "
-          "last notification's target. Schedules: generated ones plus single- and two-preemption grids around the opening, the probe race and two racing completions."),
+          "last notification's target, and a request may become the probe only at or after the retry deadline current at its lock acquisition (a roll-back does not renew it). Schedules: generated ones plus single- and two-preemption grids around the opening, the probe race and two racing completions."),
     design_ref="DESIGN.md §6 C16",
     technique="Lean 4 proof over all histories of an atomic-step model + scheduled executions of the real breakers checked by a log-replay Spec",
-    note=NOTE_COMMON + " Partial as C14: scheduling points are the instrumented lock and atomic operations; the schedule exploration on the implementation is search."),
+    note=NOTE_COMMON + " Partial as C14: scheduling points are the instrumented lock and atomic operations; the schedule exploration on the implementation is search. Found and fixed with this check: D16 (stale retry-deadline test before the state lock let a request become the probe of a re-opened breaker at once; fix: commit cd7daf3; witness corpus/C16/d16_stale_retry_check.ops)."),
  "C08": dict(
     category="translation_validation",
     text=("PARTIAL. Proved in Lean: structural theorems about the executable warm-up calculator for every state/threshold/clock (sync_stored_le_max, sync_once_per_second, sync_idempotent, "
@@ -240,7 +240,7 @@ CLAIMS = {
  "C04": dict(
     category="proof",
     text=("build_accounts_once: World.build records exactly one of pass/block with the batch count on the resource's node and mirrors it on the inbound node iff inbound "
-          "(outbound_not_mirrored), build_frame: other resources untouched, exit_records_completion, blocked_leaves_no_trace; run_acctOk / node_reads_eq / "
+          "(outbound_not_mirrored), build_frame: other resources untouched, exit_records_completion, exit_error_does_not_change_accounting (an exit with a traced error records the same completion, round-trip and concurrency as one without), blocked_leaves_no_trace; run_acctOk / node_reads_eq / "
           "concurrency_eq_open_passed: after any sequence of pass/block/completion recordings of any length with non-decreasing times, every statistic the node reports over its "
           "window equals the sum over the entries' history and the in-flight count equals the number of passed, un-exited entries. Tied to stat_slot.rs, resource_node.rs, "
           "node_storage.rs, api/base.rs, entry.rs by differential execution through the real global chain (node and inbound node read after every op); the accounting Spec is "
